@@ -110,6 +110,7 @@ def gen_script(rng, schema, hid, nadv):
     for j in range(nadv):
         L.append(adversarial(rng, hid * 1000 + j, crates, tracks))
     L += K.moved_subtree_probe("mkroot")
+    L += K.failed_call_probe()
     L += ["v2.raw", "db.q root_crates", "crate.q a children", "crate.q a tracks", "crate.q a descendants"]
     return L
 
